@@ -47,6 +47,9 @@ func resolveStruct(rv reflect.Value, fieldName string) (any, bool) {
 
 	// Try field name first
 	if f, ok := rt.FieldByName(fieldName); ok {
+		if !f.IsExported() {
+			return nil, false
+		}
 		fv := rv.FieldByIndex(f.Index)
 		return fv.Interface(), true
 	}
@@ -55,7 +58,7 @@ func resolveStruct(rv reflect.Value, fieldName string) (any, bool) {
 	for i := range rt.NumField() {
 		f := rt.Field(i)
 		tag := f.Tag.Get("json")
-		if tag == "" {
+		if tag == "" || !f.IsExported() {
 			continue
 		}
 
